@@ -26,11 +26,19 @@ type c14EzDB struct {
 	IdleSecs int `dials:"idleSecs"`
 }
 
+type c14EzCache struct {
+	Host    string `dials:"host"`
+	TTLSecs int    `dials:"ttlSecs"`
+}
+
 type c14EzCfg struct {
 	Path       string  `dials:"cfgFileNine"` // (names chosen so that no variable of the real environment matches)
 	ListenAddr string  `dials:"listenAddr" dialsalias:"bindAddr"`
 	Region     string  `dials:"zoneNine"`
 	DB         c14EzDB `dials:"dbSettings"`
+	// the alias sits on the struct-typed field itself: a section may be present as an EMPTY object, which is still
+	// "supplied under that name"
+	Cache c14EzCache `dials:"cacheSettings" dialsalias:"cacheOld"`
 }
 
 func (c *c14EzCfg) ConfigPath() (string, bool) { return c.Path, c.Path != "" }
@@ -84,10 +92,29 @@ func c14Ez(c *Ctx, n int) {
 			db[key("connLimit")] = map[bool]int{true: conns2, false: conns1}[pDeep == 3]
 		}
 		doc[key("dbSettings")] = db
+		pCache := r.Intn(4)
+		if (pTop == 3 || pDeep == 3) && pCache == 3 {
+			pCache = r.Intn(3)
+		}
+		section := func(host string) map[string]any {
+			if r.Chance(40) {
+				return map[string]any{} // present, empty
+			}
+			return map[string]any{key("host"): host}
+		}
+		var cachePrimary, cacheAlias map[string]any
+		if pCache == 1 || pCache == 3 {
+			cachePrimary = section("cache-primary")
+			doc[key("cacheSettings")] = cachePrimary
+		}
+		if pCache == 2 || pCache == 3 {
+			cacheAlias = section("cache-alias")
+			doc[key("cacheOld")] = cacheAlias
+		}
 		text, _ := encjson.Marshal(doc) // JSON is also YAML
 		path := filepath.Join(dir, fmt.Sprintf("cfg%d.%s", i, format))
 		os.WriteFile(path, text, 0o644)
-		cs := map[string]any{"source": "ez", "format": format, "FileFieldNameEncoder": e.name, "file": string(text), "patterns": strconv.Itoa(pTop) + strconv.Itoa(pDeep)}
+		cs := map[string]any{"source": "ez", "format": format, "FileFieldNameEncoder": e.name, "file": string(text), "patterns": strconv.Itoa(pTop) + strconv.Itoa(pDeep) + strconv.Itoa(pCache)}
 		fs, ferr := dflag.NewSetWithArgs(dflag.DefaultFlagNameConfig(), &c14EzCfg{}, nil)
 		if ferr != nil {
 			res.Add(Finding{Kind: "violation", What: "ez stream: cannot build an empty flag set: " + ferr.Error(), Case: cs})
@@ -97,7 +124,7 @@ func c14Ez(c *Ctx, n int) {
 		if e.fn != nil {
 			params.DialsTagNameDecoder = cc.DecodeLowerCamelCase
 		}
-		defaults := &c14EzCfg{Path: path, ListenAddr: "default-addr", Region: "default-region", DB: c14EzDB{MaxConns: -1, IdleSecs: -1}}
+		defaults := &c14EzCfg{Path: path, ListenAddr: "default-addr", Region: "default-region", DB: c14EzDB{MaxConns: -1, IdleSecs: -1}, Cache: c14EzCache{Host: "default-cache", TTLSecs: 30}}
 		var d *dials.Dials[c14EzCfg]
 		var err error
 		pn := catch(func() {
@@ -115,6 +142,9 @@ func c14Ez(c *Ctx, n int) {
 		}
 		if pDeep == 3 {
 			both = "MaxConns"
+		}
+		if pCache == 3 {
+			both = "Cache"
 		}
 		switch {
 		case pn != "":
@@ -136,12 +166,22 @@ func c14Ez(c *Ctx, n int) {
 			if pDeep != 0 {
 				wantConns = conns1
 			}
+			wantCache := c14EzCache{Host: "default-cache", TTLSecs: 30}
+			for _, sec := range []map[string]any{cachePrimary, cacheAlias} {
+				if h, ok := sec[key("host")]; ok {
+					wantCache.Host = h.(string)
+				}
+			}
+			if v.Cache != wantCache {
+				res.Add(Finding{Kind: "violation", What: fmt.Sprintf("ez: the aliased section Cache supplied under %s: wrong config", []string{"neither name", "the primary name", "the alias name"}[pCache]), Case: cs,
+					Expected: fmt.Sprintf("%+v", wantCache), Observed: fmt.Sprintf("%+v", v.Cache)})
+			}
 			if v.ListenAddr != wantAddr || v.DB.MaxConns != wantConns || v.Region != "file-region" || v.DB.IdleSecs != 7 {
 				kind := []string{"neither name", "the primary name", "the alias name"}
 				res.Add(Finding{Kind: "violation", What: fmt.Sprintf("ez: ListenAddr supplied under %s, DB.MaxConns under %s (file keys in the file's naming convention): wrong config", kind[pTop], kind[pDeep]), Case: cs,
 					Expected: fmt.Sprintf("ListenAddr=%s Region=file-region DB.MaxConns=%d DB.IdleSecs=7", wantAddr, wantConns), Observed: fmt.Sprintf("%+v", *v)})
 			}
 		}
-		res.Case(fmt.Sprintf("Z|%s|%s|%d%d", format, e.name, pTop, pDeep), true, cs)
+		res.Case(fmt.Sprintf("Z|%s|%s|%d%d%d|%s", format, e.name, pTop, pDeep, pCache, text), true, cs)
 	}
 }
